@@ -34,38 +34,57 @@ pub enum Node {
     Number(Decimal),
 }
 
-fn gamma(a: Decimal) -> Decimal {
+const RANGE: &str = "Decimal result out of range or undefined";
+
+fn chk(value: Option<Decimal>) -> Result<Decimal, Box<dyn error::Error>> {
+    value.ok_or_else(|| RANGE.into())
+}
+
+fn term(s: Decimal, coefficient: Decimal, divisor: Option<Decimal>) -> Option<Decimal> {
+    s.checked_add(coefficient.checked_div(divisor?)?)
+}
+
+fn gamma(a: Decimal) -> Option<Decimal> {
     let mut s = Decimal::new(2485740891387535655, 27);
     if a < Decimal::new(5, 1) {
-        s += Decimal::new(1051423785817219742, 20) / (Decimal::new(1, 0) - a);
-        s += Decimal::new(-3456870972220162354, 22) / (Decimal::new(2, 0) - a);
-        s += Decimal::new(4512277094668948237, 20) / (Decimal::new(3, 0) - a);
-        s += Decimal::new(-2982852253235766557, 22) / (Decimal::new(4, 0) - a);
-        s += Decimal::new(1056397115771267131, 22) / (Decimal::new(5, 0) - a);
-        s += Decimal::new(-1954287731916458696, 23) / (Decimal::new(6, 0) - a);
-        s += Decimal::new(1709705434044412243, 24) / (Decimal::new(7, 0) - a);
-        s += Decimal::new(-5719261174043057813, 24) / (Decimal::new(8, 0) - a);
-        s += Decimal::new(4633994733599056367, 28) / (Decimal::new(9, 0) - a);
-        s += Decimal::new(-2719949084886077039, 31) / (Decimal::new(10, 0) - a);
-        let compute_sin = (Decimal::new(3141592653589793238, 18) * a).sin(); // 3.14159265358979323846264338327950288419716939937510582
-        let compute_pow = ((a - Decimal::new(10400511, 6)) / Decimal::new(2718281828459045235, 18))
-            .powd(Decimal::new(5, 1) - a);
-        Decimal::new(3141592653589793238, 18)
-            / (compute_sin * s * Decimal::new(1860382734205265717, 18) * compute_pow)
+        s = term(s, Decimal::new(1051423785817219742, 20), Decimal::new(1, 0).checked_sub(a))?;
+        s = term(s, Decimal::new(-3456870972220162354, 22), Decimal::new(2, 0).checked_sub(a))?;
+        s = term(s, Decimal::new(4512277094668948237, 20), Decimal::new(3, 0).checked_sub(a))?;
+        s = term(s, Decimal::new(-2982852253235766557, 22), Decimal::new(4, 0).checked_sub(a))?;
+        s = term(s, Decimal::new(1056397115771267131, 22), Decimal::new(5, 0).checked_sub(a))?;
+        s = term(s, Decimal::new(-1954287731916458696, 23), Decimal::new(6, 0).checked_sub(a))?;
+        s = term(s, Decimal::new(1709705434044412243, 24), Decimal::new(7, 0).checked_sub(a))?;
+        s = term(s, Decimal::new(-5719261174043057813, 24), Decimal::new(8, 0).checked_sub(a))?;
+        s = term(s, Decimal::new(4633994733599056367, 28), Decimal::new(9, 0).checked_sub(a))?;
+        s = term(s, Decimal::new(-2719949084886077039, 31), Decimal::new(10, 0).checked_sub(a))?;
+        let compute_sin = Decimal::new(3141592653589793238, 18).checked_mul(a)?.checked_sin()?; // 3.14159265358979323846264338327950288419716939937510582
+        let compute_pow = a
+            .checked_sub(Decimal::new(10400511, 6))?
+            .checked_div(Decimal::new(2718281828459045235, 18))?
+            .checked_powd(Decimal::new(5, 1).checked_sub(a)?)?;
+        Decimal::new(3141592653589793238, 18).checked_div(
+            compute_sin
+                .checked_mul(s)?
+                .checked_mul(Decimal::new(1860382734205265717, 18))?
+                .checked_mul(compute_pow)?,
+        )
     } else {
-        s += Decimal::new(1051423785817219742, 20) / a;
-        s += Decimal::new(-3456870972220162354, 22) / (a + Decimal::new(1, 0));
-        s += Decimal::new(4512277094668948237, 20) / (a + Decimal::new(2, 0));
-        s += Decimal::new(-2982852253235766557, 22) / (a + Decimal::new(3, 0));
-        s += Decimal::new(1056397115771267131, 22) / (a + Decimal::new(4, 0));
-        s += Decimal::new(-1954287731916458696, 23) / (a + Decimal::new(5, 0));
-        s += Decimal::new(1709705434044412243, 24) / (a + Decimal::new(6, 0));
-        s += Decimal::new(-5719261174043057813, 24) / (a + Decimal::new(7, 0));
-        s += Decimal::new(4633994733599056367, 28) / (a + Decimal::new(8, 0));
-        s += Decimal::new(-2719949084886077039, 31) / (a + Decimal::new(9, 0));
-        let compute_pow = ((a + Decimal::new(10400511, 6)) / Decimal::new(2718281828459045235, 18))
-            .powd(a - Decimal::new(5, 1));
-        s * Decimal::new(1860382734205265717, 18) * compute_pow
+        s = term(s, Decimal::new(1051423785817219742, 20), Some(a))?;
+        s = term(s, Decimal::new(-3456870972220162354, 22), a.checked_add(Decimal::new(1, 0)))?;
+        s = term(s, Decimal::new(4512277094668948237, 20), a.checked_add(Decimal::new(2, 0)))?;
+        s = term(s, Decimal::new(-2982852253235766557, 22), a.checked_add(Decimal::new(3, 0)))?;
+        s = term(s, Decimal::new(1056397115771267131, 22), a.checked_add(Decimal::new(4, 0)))?;
+        s = term(s, Decimal::new(-1954287731916458696, 23), a.checked_add(Decimal::new(5, 0)))?;
+        s = term(s, Decimal::new(1709705434044412243, 24), a.checked_add(Decimal::new(6, 0)))?;
+        s = term(s, Decimal::new(-5719261174043057813, 24), a.checked_add(Decimal::new(7, 0)))?;
+        s = term(s, Decimal::new(4633994733599056367, 28), a.checked_add(Decimal::new(8, 0)))?;
+        s = term(s, Decimal::new(-2719949084886077039, 31), a.checked_add(Decimal::new(9, 0)))?;
+        let compute_pow = a
+            .checked_add(Decimal::new(10400511, 6))?
+            .checked_div(Decimal::new(2718281828459045235, 18))?
+            .checked_powd(a.checked_sub(Decimal::new(5, 1))?)?;
+        s.checked_mul(Decimal::new(1860382734205265717, 18))?
+            .checked_mul(compute_pow)
     }
 }
 
@@ -75,11 +94,11 @@ pub fn eval(expr: Node) -> Result<Decimal, Box<dyn error::Error>> {
     use self::Node::*;
     match expr {
         Number(i) => Ok(i),
-        Add(expr1, expr2) => Ok(eval(*expr1)? + eval(*expr2)?),
-        Subtract(expr1, expr2) => Ok(eval(*expr1)? - eval(*expr2)?),
-        Multiply(expr1, expr2) => Ok(eval(*expr1)? * eval(*expr2)?),
-        Divide(expr1, expr2) => Ok(eval(*expr1)? / eval(*expr2)?),
-        Modulo(expr1, expr2) => Ok(eval(*expr1)? % eval(*expr2)?),
+        Add(expr1, expr2) => chk(eval(*expr1)?.checked_add(eval(*expr2)?)),
+        Subtract(expr1, expr2) => chk(eval(*expr1)?.checked_sub(eval(*expr2)?)),
+        Multiply(expr1, expr2) => chk(eval(*expr1)?.checked_mul(eval(*expr2)?)),
+        Divide(expr1, expr2) => chk(eval(*expr1)?.checked_div(eval(*expr2)?)),
+        Modulo(expr1, expr2) => chk(eval(*expr1)?.checked_rem(eval(*expr2)?)),
         Negative(expr1) => Ok(-(eval(*expr1)?)),
         Abs(sub_expr) => Ok(eval(*sub_expr)?.abs()),
         Floor(sub_expr) => Ok(eval(*sub_expr)?.floor()),
@@ -87,30 +106,40 @@ pub fn eval(expr: Node) -> Result<Decimal, Box<dyn error::Error>> {
         Round(sub_expr) => Ok(eval(*sub_expr)?.round()),
         Truncate(sub_expr) => Ok(eval(*sub_expr)?.trunc()),
         Sign(sub_expr) => Ok(eval(*sub_expr)?.signum()),
-        Ln(sub_expr) => Ok(eval(*sub_expr)?.ln()),
-        Lb(sub_expr) => Ok(eval(*sub_expr)?.ln() / Decimal::new(2, 0).ln()),
-        Exp(sub_expr) => Ok(eval(*sub_expr)?.exp()),
-        Exp2(sub_expr) => Ok(Decimal::new(2, 0).powd(eval(*sub_expr)?)),
-        Pow(expr1, expr2) => Ok(eval(*expr1)?.powd(eval(*expr2)?)),
-        Log(expr1, expr2) => Ok(eval(*expr1)?.ln() / eval(*expr2)?.ln()),
+        Ln(sub_expr) => chk(eval(*sub_expr)?.checked_ln()),
+        Lb(sub_expr) => chk(eval(*sub_expr)?
+            .checked_ln()
+            .and_then(|x| x.checked_div(Decimal::new(2, 0).ln()))),
+        Exp(sub_expr) => chk(eval(*sub_expr)?.checked_exp()),
+        Exp2(sub_expr) => chk(Decimal::new(2, 0).checked_powd(eval(*sub_expr)?)),
+        Pow(expr1, expr2) => chk(eval(*expr1)?.checked_powd(eval(*expr2)?)),
+        Log(expr1, expr2) => {
+            let x = chk(eval(*expr1)?.checked_ln())?;
+            let base = chk(eval(*expr2)?.checked_ln())?;
+            chk(x.checked_div(base))
+        }
         Factorial(sub_expr) => {
             let sub_result = eval(*sub_expr)?;
             if sub_result >= Decimal::ZERO {
                 if (sub_result % Decimal::new(1, 0)) > Decimal::ZERO {
-                    Ok(gamma(sub_result + Decimal::new(1, 0)))
+                    chk(sub_result
+                        .checked_add(Decimal::new(1, 0))
+                        .and_then(gamma))
                 } else {
                     let mut factorial_result = Decimal::new(1, 0);
-                    for i in 2..=sub_result.to_i64().unwrap() {
+                    for i in 2..=sub_result.to_i64().ok_or(RANGE)? {
                         #[cfg(feature = "verif_hooks")]
                         crate::verif_hooks::tick();
-                        factorial_result *= Decimal::new(i, 0);
+                        factorial_result = chk(factorial_result.checked_mul(Decimal::new(i, 0)))?;
                     }
                     Ok(factorial_result)
                 }
             } else if (sub_result % Decimal::new(1, 0)) == Decimal::ZERO {
                 return Err("The factorial function is not defined for {}.".into());
             } else {
-                Ok(gamma(sub_result + Decimal::new(1, 0)))
+                chk(sub_result
+                    .checked_add(Decimal::new(1, 0))
+                    .and_then(gamma))
             }
         }
         LambertW(expr) => {
@@ -119,18 +148,35 @@ pub fn eval(expr: Node) -> Result<Decimal, Box<dyn error::Error>> {
                 return Err("The Lambert W function is not defined for {}.".into());
             }
             let iterations = (Decimal::new(4, 0))
-                .max((sub_expr.log10() / Decimal::new(3, 0)).ceil())
+                .max(
+                    sub_expr
+                        .checked_log10()
+                        .map(|x| (x / Decimal::new(3, 0)).ceil())
+                        .unwrap_or_default(),
+                )
                 .to_i32()
                 .unwrap_or(4);
             let mut w = Decimal::ZERO;
             for _ in 0..iterations {
                 #[cfg(feature = "verif_hooks")]
                 crate::verif_hooks::tick();
-                let exp_w = w.exp();
-                w -= (w * exp_w - sub_expr)
-                    / (exp_w * (w + Decimal::new(1, 0))
-                        - (w + Decimal::new(2, 0)) * (w * exp_w - sub_expr)
-                            / (Decimal::new(2, 0) * w + Decimal::new(2, 0)));
+                let exp_w = chk(w.checked_exp())?;
+                let residual = chk(w.checked_mul(exp_w).and_then(|x| x.checked_sub(sub_expr)))?;
+                let correction = chk(w
+                    .checked_add(Decimal::new(2, 0))
+                    .and_then(|x| x.checked_mul(residual))
+                    .and_then(|x| {
+                        x.checked_div(
+                            Decimal::new(2, 0)
+                                .checked_mul(w)?
+                                .checked_add(Decimal::new(2, 0))?,
+                        )
+                    }))?;
+                let slope = chk(w
+                    .checked_add(Decimal::new(1, 0))
+                    .and_then(|x| x.checked_mul(exp_w))
+                    .and_then(|x| x.checked_sub(correction)))?;
+                w = chk(residual.checked_div(slope).and_then(|x| w.checked_sub(x)))?;
             }
             Ok(w)
         }
@@ -142,7 +188,10 @@ pub fn eval(expr: Node) -> Result<Decimal, Box<dyn error::Error>> {
                 #[cfg(feature = "verif_hooks")]
                 crate::verif_hooks::tick();
                 x += Decimal::new(1, 0);
-                n = (n.log10() / b.log10()).floor();
+                n = chk(n
+                    .checked_log10()
+                    .and_then(|x| x.checked_div(b.checked_log10()?)))?
+                .floor();
             }
             Ok(x)
         }
@@ -150,12 +199,18 @@ pub fn eval(expr: Node) -> Result<Decimal, Box<dyn error::Error>> {
             Some(result) => Ok(result),
             None => Err("Unable to compute the square root of negative number".into()),
         },
-        Root(n_th_expr, x_expr) => Ok(eval(*x_expr)?.powd(Decimal::new(1, 0) / eval(*n_th_expr)?)),
+        Root(n_th_expr, x_expr) => {
+            let x = eval(*x_expr)?;
+            let n_th = eval(*n_th_expr)?;
+            chk(Decimal::new(1, 0)
+                .checked_div(n_th)
+                .and_then(|exponent| x.checked_powd(exponent)))
+        }
         Min(args) => {
             if args.len() > 1 {
                 let mut result = Decimal::MAX;
                 for arg in <Vec<Node> as Clone>::clone(&args).into_iter() {
-                    result = eval(arg).unwrap().min(result);
+                    result = eval(arg)?.min(result);
                 }
                 Ok(result)
             } else {
@@ -169,7 +224,7 @@ pub fn eval(expr: Node) -> Result<Decimal, Box<dyn error::Error>> {
             if args.len() > 1 {
                 let mut result = Decimal::MIN;
                 for arg in <Vec<Node> as Clone>::clone(&args).into_iter() {
-                    result = eval(arg).unwrap().max(result);
+                    result = eval(arg)?.max(result);
                 }
                 Ok(result)
             } else {
@@ -182,19 +237,21 @@ pub fn eval(expr: Node) -> Result<Decimal, Box<dyn error::Error>> {
         Avg(args) => {
             let mut result = Decimal::ZERO;
             for arg in <Vec<Node> as Clone>::clone(&args).into_iter() {
-                result += eval(arg).unwrap();
+                result = chk(result.checked_add(eval(arg)?))?;
             }
-            Ok(result / Decimal::new(args.len() as i64, 0))
+            chk(result.checked_div(Decimal::new(args.len() as i64, 0)))
         }
         Med(args) => {
             let mut results = vec![];
             for arg in <Vec<Node> as Clone>::clone(&args).into_iter() {
-                results.push(eval(arg).unwrap());
+                results.push(eval(arg)?);
             }
             results.sort_by(|a, b| a.partial_cmp(b).unwrap());
             let len = results.len();
             if len % 2 == 0 {
-                Ok((results[len >> 1] + results[(len >> 1) - 1]) / Decimal::new(2, 0))
+                chk(results[len >> 1]
+                    .checked_add(results[(len >> 1) - 1])
+                    .and_then(|x| x.checked_div(Decimal::new(2, 0))))
             } else {
                 Ok(results[len >> 1])
             }
